@@ -10,6 +10,7 @@ mod vecops;
 mod matrix;
 mod pool;
 mod prog;
+mod plans;
 mod proof;
 mod rules;
 mod sched;
@@ -53,6 +54,7 @@ fn main() {
         "dump-values" => values::main(&args),
         "drive-vecindex" => vecindex::main(&args),
         "drive-vecops" => vecops::main(&args),
+        "drive-plans" => plans::main(&args),
         "drive-proof" => proof::main(&args),
         "drive-rules" => rules::main(&args),
         "drive-sched" => sched::main(&args),
